@@ -133,24 +133,32 @@ class EValue(PyEcoreValue):
             return
 
         eOpposite = efeature.eOpposite
-        # if we are in an 'unset' context
         opposite_name = eOpposite._name
-        if value is None:
-            if previous_value is None:
-                return
+        # the previous partner is released
+        if previous_value is not None and previous_value is not value:
             if eOpposite.many:
                 object.__getattribute__(previous_value, opposite_name) \
                       .remove(owner, update_opposite=False)
             else:
-                object.__setattr__(previous_value, opposite_name, None)
+                previous_value.__getattribute__(opposite_name)  # Force load
+                partner_slot = previous_value.__dict__[opposite_name]
+                if partner_slot is not self:
+                    partner_slot._set(None, update_opposite=False)
+        if value is None:
+            return
+        if eOpposite.many:
+            value.__getattribute__(opposite_name) \
+                 .append(owner, update_opposite=False)
         else:
-            previous_value = value.__getattribute__(opposite_name)
-            if eOpposite.many:
-                previous_value.append(owner, update_opposite=False)
-            else:
-                # We disable the eOpposite update
-                value.__dict__[opposite_name]. \
-                      _set(owner, update_opposite=False)
+            # the new partner leaves the object it was linked to
+            current = value.__getattribute__(opposite_name)
+            if current is not None and current is not owner:
+                current.__getattribute__(efeature._name)  # Force load
+                current.__dict__[efeature._name] \
+                       ._set(None, update_opposite=False)
+            # We disable the eOpposite update
+            value.__dict__[opposite_name]. \
+                  _set(owner, update_opposite=False)
 
 
 class ECollection(PyEcoreValue):
@@ -193,7 +201,12 @@ class ECollection(PyEcoreValue):
             owner.__getattribute__(opposite_name).remove(new_value, False)
         else:
             new_value = None if remove else new_value
-            owner.__getattribute__(opposite_name)  # Force load
+            current = owner.__getattribute__(opposite_name)  # Force load
+            if not remove and current is not None \
+                    and current is not new_value:
+                # the element leaves the collection it was linked to
+                current.__getattribute__(self.feature._name) \
+                       .remove(owner, False)
             owner.__dict__[opposite_name] \
                  ._set(new_value, update_opposite=False)
 
